@@ -1,22 +1,11 @@
 """C30 Liveness and readiness follow subsystem reports within one tick."""
 
-import os as _os
-import sys as _sys
-
-_THOROUGH = _os.environ.get("VERIF_TIER") == "thorough"
-for _i, _a in enumerate(_sys.argv):
-    if _a == "--tier" and _i + 1 < len(_sys.argv):
-        _THOROUGH = _sys.argv[_i + 1] == "thorough"
-    elif _a.startswith("--tier="):
-        _THOROUGH = _a == "--tier=thorough"
-
-
 def _walk(name, suffix, budget, quick=False, quick_suffix=None):
     """One exhaustive TLC run + transition tour. Alternative 'exact' = the answers of the code model;
     'loose' = any answers the C30 statement allows (tried only when the code departs from 'exact')."""
     cfg = lambda alt: {"quick": f"MC_Health_{alt}{suffix if quick_suffix is None else quick_suffix}.cfg", "thorough": f"MC_Health_{alt}{suffix}.cfg"}
     return dict(kind="walk", name=name, module="Health", pkg="internal/health", test="TestVerifC30Health",
-                harness=["internal/health/c30_health_test.go"], _quick=quick,
+                harness=["internal/health/c30_health_test.go"], tiers=(("quick", "thorough") if quick else ("thorough",)),
                 alternatives=[dict(name="exact", cfg=cfg("exact")), dict(name="loose", cfg=cfg("loose"))],
                 budget=budget)
 
@@ -36,8 +25,3 @@ PROP = dict(
             dict(kind="tlc", name="HealthMC3", module="Health", cfg={"quick": None, "thorough": "MC_Health_mc3.cfg"}, workers=8)],
 )
 
-# lib/stages.py has no "skip this walk stage in the quick tier" (a cfg of None is only understood by
-# tlc stages), so the thorough-only walk stages are dropped here when vcheck was not asked for thorough
-# (kept for --replay, which selects the stage by name and does not carry the tier).
-if not _THOROUGH and "--replay" not in _sys.argv:
-    PROP["stages"] = [st for st in PROP["stages"] if st["kind"] != "walk" or st.get("_quick")]
